@@ -61,8 +61,9 @@ def snap_term(occ):
         opt_lz(occ["active_cell"]), opt_lz(occ["active_id"]))
 
 
-def encode_ocase(tr, max_legs, si):
-    """Model/OccupancyRun.v ocase of internal state number si of one trace (None if there is none)."""
+def encode_ocase_n(tr, max_legs, si):
+    """Model/OccupancyRun.v ocase of internal state number si of one trace, and the indices of the legs it contains
+    (None if there is no such occupancy)."""
     meta = tr["meta"]
     if si >= len(meta["internal_states"]) or "SingleActiveCellOccupancy" not in (meta["internal_states"][si].get("class") or ""):
         return None
@@ -78,6 +79,7 @@ def encode_ocase(tr, max_legs, si):
     init = "[" + "; ".join("(%s, %s, %s)" % (lz(u["id"]), lz(u["pos"]), C.coq_bool(tuple(u["id"]) in rel0))
                            for u in cell_units) + "]"
     terms = []
+    used = []
     for n, leg in enumerate(legs[:max_legs]):
         if n == 0:
             st.apply(leg.get("delta"))
@@ -96,13 +98,19 @@ def encode_ocase(tr, max_legs, si):
         terms.append("(mkOLeg %s %s %s %s %s %s)" % (
             C.coq_bool(pb), lz(a["id"]), lz(a["pos"]), C.coq_bool(list(a["id"]) in occ["relevant"]), units,
             snap_term(occ)))
+        used.append(n)
         if leg.get("delta") is None:
             break
         st.apply(leg["delta"])
     max_occ = 0 if ist["occupants_not_bounded"] else ist["max_occupants"]
     return "mkOCase %s %s %s %s %s %s" % (
         lz(meta["system_lengths"]), lz(ist["cells_per_side"]), C.coq_z(max_occ), init, snap_term(occ0),
-        "[" + ";\n ".join(terms) + "]")
+        "[" + ";\n ".join(terms) + "]"), used
+
+
+def encode_ocase(tr, max_legs, si):
+    r = encode_ocase_n(tr, max_legs, si)
+    return None if r is None else r[0]
 
 
 def encoders():
